@@ -30,6 +30,7 @@ type c18Op struct {
 	Value  string `json:"value"`  // same | sibling | wrong | nil | clone-of-target
 	Index  int    `json:"index"`
 	Pkg    bool   `json:"pkg"`
+	Seed   int    `json:"seed,omitempty"` // extra entropy for the value (codes stage)
 }
 
 type c18Case struct {
@@ -96,6 +97,73 @@ func c18GenOp(s Src, root *Node) c18Op {
 		}
 	}
 	return op
+}
+
+// c18GenCodes: one add or replace of a plain Code on an enum-backed code element, with a
+// valid code of the value set or an invalid spelling (foreign, wrong separator, wrong case,
+// the proto enum name, camelCase, padded) - "invalid code" is one of the error classes
+// the statement names.
+func c18GenCodes(s Src) c18Case {
+	o := defaultGen
+	o.Contained = false
+	var res proto.Message
+	if s.Prob(20) {
+		res = fixturePatient()
+	} else {
+		res = genAnyResource(s, o)
+	}
+	c := c18Case{Res: resToText(res)}
+	root, _, err := buildTree(res)
+	if err != nil {
+		return c
+	}
+	isEnumCode := func(md protoreflect.MessageDescriptor) bool {
+		vf := md.Fields().ByName("value")
+		return vf != nil && vf.Kind() == protoreflect.EnumKind
+	}
+	type slot struct {
+		n    *Node
+		name string
+	}
+	var present, addable []slot
+	visit := func(n *Node) {
+		if n.ViaAny || n.Synth || n.Msg == nil {
+			return
+		}
+		md := n.Msg.ProtoReflect().Descriptor()
+		if n != root && isEnumCode(md) {
+			present = append(present, slot{n: n})
+		}
+		fs := md.Fields()
+		for i := 0; i < fs.Len(); i++ {
+			f := fs.Get(i)
+			if f.Message() != nil && f.ContainingOneof() == nil && isEnumCode(f.Message()) && (f.IsList() || len(n.Kids[f.JSONName()]) == 0) {
+				addable = append(addable, slot{n: n, name: f.JSONName()})
+			}
+		}
+	}
+	visit(root)
+	root.walk(visit)
+	op := c18Op{Value: "sibling", Pkg: s.Prob(20), Seed: 1 + s.Intn(4000)}
+	if s.Prob(50) {
+		op.Seed = 4 * (1 + s.Intn(1000)) // an invalid spelling
+	}
+	switch {
+	case len(present) > 0 && (len(addable) == 0 || s.Bool()):
+		sl := pickOne(s, present)
+		op.Op = "replace"
+		op.Steps = c02IndexedSteps(sl.n, 0xffff)
+	case len(addable) > 0:
+		sl := pickOne(s, addable)
+		op.Op, op.Name = "add", sl.name
+		if sl.n != root {
+			op.Steps = c02IndexedSteps(sl.n, 0xffff)
+		}
+	default:
+		return c
+	}
+	c.Ops = []c18Op{op}
+	return c
 }
 
 func c18Gen(s Src) c18Case {
@@ -233,15 +301,32 @@ func c18Value(kind string, fd protoreflect.MessageDescriptor, target proto.Messa
 		case vf != nil && vf.Kind() == protoreflect.EnumKind:
 			// a plain Code carrying one of the enum's codes, or an invalid one
 			vals := vf.Enum().Values()
-			code := "not-a-code"
-			if seed%4 != 0 && vals.Len() > 1 {
+			code, cls := "not-a-code", "sibling:Code→enum"
+			if vals.Len() > 1 {
 				ev := vals.Get(1 + seed%(vals.Len()-1))
 				code = proto.GetExtension(ev.Options(), apb.E_FhirOriginalCode).(string)
 				if code == "" {
 					code = strings.ReplaceAll(strings.ToLower(string(ev.Name())), "_", "-")
 				}
+				if seed%4 == 0 {
+					// an invalid code: foreign, or a near-miss spelling of a valid one
+					words := strings.FieldsFunc(code, func(r rune) bool { return r == '-' })
+					camel := ""
+					for i, w := range words {
+						if i > 0 && w != "" {
+							w = strings.ToUpper(w[:1]) + w[1:]
+						}
+						camel += w
+					}
+					variants := []string{"not-a-code", strings.ReplaceAll(code, "-", "_"), strings.ReplaceAll(code, "-", " "), strings.ReplaceAll(code, "-", "."), strings.ToUpper(code), string(ev.Name()), camel, code + "-", " " + code, code + "x", ""}
+					nv := variants[(seed/4)%len(variants)]
+					if nv == code {
+						nv = "not-a-code"
+					}
+					code, cls = nv, "sibling:invalid Code→enum"
+				}
 			}
-			return &dtpb.Code{Value: code}, "sibling:Code→enum"
+			return &dtpb.Code{Value: code}, cls
 		case name == "PositiveInt" || name == "UnsignedInt":
 			return &dtpb.Integer{Value: int32([]int{5, 0, -3, 2147483647}[seed%4])}, "sibling:Integer→unsigned"
 		case name == "Integer":
@@ -402,6 +487,26 @@ func c18Locate(modelRoot proto.Message, n *Node) slot {
 // normalize: the value as it must appear in a field of message type want ("" = not
 // representable → the operation must fail or, if it succeeds, is judged by the frame rule).
 func c18Normalize(want protoreflect.MessageDescriptor, v proto.Message) (protoreflect.Message, bool) {
+	m, ok, _ := c18Normalize3(want, v)
+	return m, ok
+}
+
+// c18Normalize3 additionally reports invalidCode: the value is a string-valued primitive
+// offered for an enum-backed code and its text is not a code of that value set - the
+// tree would gain that very text, which the element cannot hold, so the operation must fail.
+func c18Normalize3(want protoreflect.MessageDescriptor, v proto.Message) (_ protoreflect.Message, _ bool, invalidCode bool) {
+	m, ok := c18normalize(want, v)
+	if !ok && v.ProtoReflect().Descriptor() != want {
+		if vf := want.Fields().ByName("value"); vf != nil && vf.Kind() == protoreflect.EnumKind {
+			if _, isStr := v.(interface{ GetValue() string }); isStr {
+				return nil, false, true
+			}
+		}
+	}
+	return m, ok, false
+}
+
+func c18normalize(want protoreflect.MessageDescriptor, v proto.Message) (protoreflect.Message, bool) {
 	if v.ProtoReflect().Descriptor() == want {
 		return proto.Clone(v).ProtoReflect(), true
 	}
@@ -564,8 +669,11 @@ func c18ApplyModel(model proto.Message, root *Node, op c18Op, targets []*Node, v
 			// a choice (or contained) slot takes the value as the member of its own type
 			e = proto.Clone(value).ProtoReflect()
 		} else {
-			var ok bool
-			e, ok = c18Normalize(wantMD, value)
+			var ok, badCode bool
+			e, ok, badCode = c18Normalize3(wantMD, value)
+			if badCode {
+				return c18Outcome{mustFail: true, why: "replace-invalid-code"}
+			}
 			if !ok {
 				return c18Outcome{why: "replace-wrong-type"}
 			}
@@ -673,8 +781,11 @@ func c18ApplyModel(model proto.Message, root *Node, op c18Op, targets []*Node, v
 		if isChoiceMD(fm) || fm.FullName() == "google.fhir.r4.core.ContainedResource" {
 			e = proto.Clone(value).ProtoReflect()
 		} else {
-			var ok bool
-			e, ok = c18Normalize(fm, value)
+			var ok, badCode bool
+			e, ok, badCode = c18Normalize3(fm, value)
+			if badCode {
+				return c18Outcome{mustFail: true, why: "add-invalid-code"}
+			}
 			if !ok {
 				return c18Outcome{why: "add-wrong-type"}
 			}
@@ -789,7 +900,11 @@ func c18Run(ctx *Ctx, c c18Case) {
 		if fdesc != nil && (fdesc.FullName() == "google.protobuf.Any" || fdesc.FullName() == "google.fhir.r4.core.ContainedResource") {
 			fdesc = (&dtpb.String{}).ProtoReflect().Descriptor()
 		}
-		value, vclass := c18Value(op.Value, fdesc, targetMsg, op.Index+oi*7+len(path))
+		vseed := op.Index + oi*7 + len(path)
+		if op.Seed != 0 {
+			vseed = op.Seed
+		}
+		value, vclass := c18Value(op.Value, fdesc, targetMsg, vseed)
 		var valueSnap snap
 		if value != nil {
 			valueSnap = snapshot(value)
@@ -1004,10 +1119,11 @@ var _ = reflect.TypeOf
 
 func TestC18(t *testing.T) {
 	r := newRec("C18",
-		"a history case is one resource (the fixture Patient or a generated resource of any R4 type) and 1..5 operations; each operation targets a node of the current JSON tree (un-indexed, fully or partly indexed) optionally filtered by first()/last()/tail()/where(true|false)/[0]/extension(url)/where(id.exists()), with op ∈ {add, insert, delete, replace, move}, an element name (valid, unknown, snake_case), an index in [-1,4] and a value that is a fresh element of the target's type, a sibling type (Code for an enum code, Integer for unsigned, …), a wrong type, a clone of the target or nil; method and package-level entry points.  Oracle after every step: error ⇒ resource and value bit-identical (deterministic serialisation, presence bits, proto.Equal); nil ⇒ the resource equals M-PATCH applied to a clone (independent protoreflect implementation on the target located by tree semantics; proto.Equal and google/fhir JSON), or, where the model does not predict the success, nothing changes when the path selects nothing; Move ⇒ ErrNotImplemented and unchanged.  Inverse-pair cases: add→delete, insert→delete, replace→replace-back restore the resource.  non-trivial = an operation succeeded and changed the tree, or failed on a path selecting ≥ 1 node (histories); both steps succeeded (inverse pairs); distinct = FNV-64 of the case",
+		"a history case is one resource (the fixture Patient or a generated resource of any R4 type) and 1..5 operations; each operation targets a node of the current JSON tree (un-indexed, fully or partly indexed) optionally filtered by first()/last()/tail()/where(true|false)/[0]/extension(url)/where(id.exists()), with op ∈ {add, insert, delete, replace, move}, an element name (valid, unknown, snake_case), an index in [-1,4] and a value that is a fresh element of the target's type, a sibling type (Code for an enum code, Integer for unsigned, …), a wrong type, a clone of the target or nil; method and package-level entry points.  Oracle after every step: error ⇒ resource and value bit-identical (deterministic serialisation, presence bits, proto.Equal); nil ⇒ the resource equals M-PATCH applied to a clone (independent protoreflect implementation on the target located by tree semantics; proto.Equal and google/fhir JSON), or, where the model does not predict the success, nothing changes when the path selects nothing; Move ⇒ ErrNotImplemented and unchanged.  Inverse-pair cases: add→delete, insert→delete, replace→replace-back restore the resource.  Code cases: one add/replace of a plain Code on an enum-backed code element with a valid code or an invalid spelling of one (foreign, `_`/space/`.` for `-`, upper case, proto enum name, camelCase, padded): a code outside the value set must be refused (the tree would gain a text the element cannot hold).  non-trivial = an operation succeeded and changed the tree, or failed on a path selecting ≥ 1 node (histories); both steps succeeded (inverse pairs); distinct = FNV-64 of the case",
 		"the statement is conditional on success: which well-typed operations succeed is reported (success:* classes) but not asserted", "google/fhir jsonformat defines the JSON rendering")
 	runProperty(t, r,
 		Stage[c18Case]{Name: "histories", Gen: c18Gen, Run: c18Run, N: pick(2500, 25000)},
 		Stage[c18InvCase]{Name: "inverse-pairs", Gen: c18GenInv, Run: c18RunInv, N: pick(1500, 12000)},
+		Stage[c18Case]{Name: "codes", Gen: c18GenCodes, Run: c18Run, N: pick(1500, 15000)},
 	)
 }
